@@ -611,7 +611,47 @@ def main(argv):
     c.add_argument('--tier', default=os.environ.get('VERIF_TIER', 'quick'))
     c.add_argument('--repo', default='/repo')
     c.add_argument('--keep', action='store_true')
+    wm = sub.add_parser('warm')
+    wm.add_argument('--repo', default='/repo')
+    rp = sub.add_parser('replay')
+    rp.add_argument('file')
+    rp.add_argument('--repo', default='/repo')
     a = ap.parse_args(argv)
+    if a.cmd == 'warm':
+        # build everything once so that the Go build cache is hot (offline, from files on disk only)
+        try:
+            with Work('warm', a.repo, 'quick', 1) as w:
+                w.prepare_harness(fresh=True, variants=('plain', 'race'))
+                w.build_plugin(cover=True)
+        except Broken as e:
+            print('warm: %s' % e)
+            return 1
+        return 0
+    if a.cmd == 'replay':
+        v = json.load(open(a.file))
+        r = v.get('replay') or {}
+        eng, typ, idx = r.get('engine'), r.get('type'), r.get('index')
+        if not eng or typ is None:
+            print('replay file has no engine/type'); return 2
+        with Work('replay', a.repo, 'quick', int(r.get('seed', 1))) as w:
+            bins = w.prepare_harness(fresh=True, variants=('race',) if eng == 'conc' else ('plain',))
+            b = list(bins.values())[0]
+            args = ['-types', '^' + re.escape(typ) + '$']
+            if idx is not None:
+                args += ['-arg', 'only=%d' % idx]
+            if r.get('depths'):
+                args = ['-arg', 'depths=' + r['depths'], '-shard', r.get('shard', '0/1')]
+            reps = w.run_engine(b, eng, shards=1, args=args)
+            n = 0
+            for rep in reps:
+                for pid, p in (rep.get('props') or {}).items():
+                    for x in p.get('violations') or []:
+                        n += 1
+                        print('VIOLATION property=%s replay=%s' % (pid, a.file))
+                        print('  key=%s type=%s\n  %s' % (x['key'], x['type'], x['detail'][:3000]))
+            if n == 0:
+                print('replay: no violation reproduced on the current tree')
+            return 1 if n else 0
     if a.cmd == 'check':
         seed = int(os.environ.get('VERIF_SEED', '1') or 1)
         try:
